@@ -688,6 +688,19 @@ func stmtElems(L *Loaded, fn *ssa.Function) []stmtElem {
 func ruleStmtOrder(c *Ctx, rule string) {
 	L := c.L
 	if fn := genFn(c, rule, "(*InjectorProviderCallStmt).Stmt"); fn != nil {
+		// a provider statement emits its own wait, call, error check and close - never other statements of the schedule:
+		// whatever it would splice in (a field read, another call) ends up between its call and its error check or close
+		for _, g := range family(L, fn) {
+			for _, cs := range callsIn(g) {
+				isStmt := cs.common.IsInvoke() && cs.common.Method.Name() == "Stmt"
+				if cal := cs.common.StaticCallee(); cal != nil && cal.Name() == "Stmt" && cal.Signature.Recv() != nil && strings.Contains(cal.Signature.Recv().Type().String(), genPkg+".Injector") {
+					isStmt = true
+				}
+				if isStmt && len(cs.common.Args) >= 3 {
+					c.fail(rule, fnName(g)+":nested-statement", L.pos(cs.instr.Pos()), "a provider statement renders another statement of the schedule inside itself: that statement's effects (reads, closes) are emitted before this provider's error check", cs.callee)
+				}
+			}
+		}
 		var wait, decl, assign, errh, closeS ssa.Instruction
 		roleOf := func(v ssa.Value) *ssa.Function {
 			// the module function whose result is appended (directly, through an if-non-nil phi, or as a spread)
